@@ -59,12 +59,14 @@ def main():
     pipeline.load_vela()
     liverange_lib.install()      # harness-side wrapping of live_range.extract_*, before the workers are forked
     outs = pipe_common.run_corpus(ck, n, profiles=profiles, want={"out_model": True, "extra": liverange_lib.extra},
-                                  corpus_first=False)
+                                  corpus_first=False, sweep=True)
     lines, owners, extra = [], [], []
     for o in outs:
         if "harness_exception" in o:
             raise common.InfraError("pipeline worker failed:\n" + o["harness_exception"])
         ck.count("status_" + o["status"])
+        if o["profile"].startswith("sweep:"):
+            ck.count("sweep_" + o["profile"].split(":", 1)[1])
         if o["status"] != "ok" or not o.get("out_model"):
             continue
         model = fbwalk.parse(o["out_model"])
